@@ -56,6 +56,13 @@ type rec struct {
 	text  []byte
 }
 
+// failingWriter: a ResponseWriter whose client is gone
+type failingWriter struct{ h http.Header }
+
+func (w failingWriter) Header() http.Header         { return w.h }
+func (w failingWriter) WriteHeader(int)             {}
+func (w failingWriter) Write(b []byte) (int, error) { return 0, io.ErrClosedPipe }
+
 func newRec() *rec                   { return &rec{hdr: http.Header{}} }
 func (r *rec) Header() http.Header   { return r.hdr }
 func (r *rec) WriteHeader(code int) {
@@ -1121,6 +1128,15 @@ func (x *executor) stepInner(line string) string {
 			r := newRec()
 			mux.Trace(r, req, t[1] == "1")
 			return "trace " + fmtRec(r) + " text=" + encB(string(r.text))
+		})
+	case t[0] == "trace-fail" && len(t) == 7:
+		// the Trace helper against a client that went away: every Write fails. Nothing of this request may survive in the
+		// helper (a pooled buffer, say) — the next trace-helper line shows
+		return protect(func() string {
+			req := mkRequest(t[2], t[3], "example.com", t[4])
+			req.Body = io.NopCloser(strings.NewReader(decB(t[5])))
+			mux.Trace(failingWriter{http.Header{}}, req, t[1] == "1")
+			return "tracefail ok"
 		})
 	case t[0] == "u-render" && len(t) == 2:
 		return protect(func() string { return hookRender(atoi(t[1])) })
